@@ -602,6 +602,9 @@ class SubRun:
         self.w.connect()
         self.w.pump()
         self.half = half
+        # how a write that comes after this end's own accepted close (or after connectionLost) is spelt: the statement's "an
+        # error when writing after close" does not depend on what is written - an empty write is a write
+        self.late_style = variant % 3
         self.openers = {}     # id -> opener protocol
         self.schedule = []
         self.errors = {}      # (id, end) -> [exception names]
@@ -680,7 +683,14 @@ class SubRun:
             if a == "AppWrite":
                 k = self._writes.get((sid, e), 0)
                 self._writes[(sid, e)] = k + 1
-                p.transport.write(("w%d%s%d" % (sid, e, k)).encode())
+                late = any(c == ["close", "ok"] for c in self.calls.get((sid, e), [])) or \
+                    any(tuple(x)[0] == "lost" for x in getattr(p, "log", ()))
+                if late and self.late_style == 1:
+                    p.transport.write(b"")
+                elif late and self.late_style == 2:
+                    p.transport.writeSequence([b"", b""] if k % 2 else [])
+                else:
+                    p.transport.write(("w%d%s%d" % (sid, e, k)).encode())
             elif self.half:
                 p.transport.loseWriteConnection()
             else:
